@@ -25,6 +25,8 @@ def main():
         summ = (m.get("summary") or m.get("origin") or "")
         summ = re.sub(r"\s+", " ", summ)[:170]
         demo = r.get("demo") or {}
+        if m.get("demo_python_verified"):
+            demo = m["demo_python_verified"]
         demo_s = "n/a (reverse of a fix: commit)" if name.startswith("legacy_") else (
             "fails with / passes without" if demo.get("fails_with_change") and demo.get("passes_without_change") else "NOT confirmed")
         cells = []
